@@ -29,7 +29,8 @@ ssize_t PyTreeSpec::HashValueImpl() const {
     HashCombine(seed, GetNumLeaves());
     HashCombine(seed, GetNumNodes());
     HashCombine(seed, m_none_is_leaf);
-    HashCombine(seed, m_namespace);
+    // NOTE: `m_namespace` must not contribute to the hash. `EqualTo()` treats an empty namespace as
+    // compatible with any namespace, and equal treespecs must have equal hashes.
 
     for (const Node& node : m_traversal) {
         HashCombine(seed, node.kind);
